@@ -38,6 +38,7 @@ ARCHS = {
     "convmax": lambda A, L: [("conv", A, 1, 2, 1, 0, 1), ("act", "ReLU"), ("maxpool", 2), ("flatten",), ("linear", (L - 1) // 2, 2)],
     "affine": lambda A, L: [("conv", A, 2, 2, 1, 0, 1), ("flatten",), ("linear", 2 * (L - 1), 2)],
     "convmaxov": lambda A, L: [("conv", A, 1, 2, 1, 0, 1), ("act", "ReLU"), ("maxpool", 2, 1), ("flatten",), ("linear", (L - 1) - 1, 2)],      # overlapping windows
+    "convmaxceil": lambda A, L: [("conv", A, 1, 2, 1, 0, 1), ("act", "ReLU"), ("maxpool", 2, 2, 0, 1, False, True), ("flatten",), ("linear", -(-((L - 1) - 2) // 2) + 1, 2)],   # ceil_mode, partial last window
     "convmaxpad": lambda A, L: [("conv", A, 1, 2, 1, 0, 1), ("act", "ReLU"), ("maxpool", 3, 3, 1), ("flatten",), ("linear", (L - 1 + 2 - 3) // 3 + 1, 2)],
 }
 for _a in nn.ACT_NAMES:
